@@ -456,6 +456,38 @@ Definition lapjv (rt : rtv) (eps epsr : Z) (k : nat) (n : nat) (tri : list tripl
       end
   end.
 
+(* The reference variant: identical to [lapjv] except that augment's sentinel `inf = np.sum(c) + 1` (:296), which is NOT
+   larger than every reduced cost once prices have gone negative (finding F20), is a true infinity. *)
+Definition lapjv_ref (rt : rtv) (eps epsr : Z) (k : nat) (n : nat) (tri : list triple)
+  : option (list nat * list nat * list ext * list ext) :=
+  let mi := min_i n tri in
+  let v0 := v_init n tri in
+  let x0 := x_init n mi in
+  let y0 := y_init n x0 in
+  let u0 := repeat (Fin 0) n in
+  let free := free_rows n mi in
+  let one := one_rows n mi in
+  let rows := rows_of n tri in
+  let jflat := jflat_of rows in
+  let '(u1, v1) := reduction_transfer rt n rows jflat x0 one u0 v0 in
+  let arr := match free with
+             | [] => Some (x0, y0, v1, free)
+             | _ => arr_passes k (arr_fuel n tri) (Fin eps) (Fin epsr) n rows (x0, y0, v1, free)
+             end in
+  match arr with
+  | None => None
+  | Some (x2, y2, v2, ii) =>
+      let s0 := mkMain x2 y2 v2 (repeat (Fin 0) n) (repeat 1%nat n) (repeat n n) (repeat n n) in
+      match fold_left (aug_row n PInf rows) ii (Some s0) with
+      | None => None
+      | Some s =>
+          match final_u rows (m_x s) (m_v s) with
+          | None => None
+          | Some u => Some (m_x s, m_y s, u, m_v s)
+          end
+      end
+  end.
+
 (* ---------------------------------------------------------------- the tracker's use of the solver
    neighmovetrack.py:456-484 (solve_assignement: pairs with cost < invalid_match, the call,
    dict(enumerate(x))) and :197-208 (from_detections_assignment: keep d1n < len(detections_1) and
@@ -476,10 +508,11 @@ Definition as_nats (x : sx) : list nat := map as_nat (as_list x).
 Definition as_triple (x : sx) : triple := (as_nat (arg 0 x), as_nat (arg 1 x), as_Z (arg 2 x)).
 Definition as_triples (x : sx) : list triple := map as_triple (as_list x).
 
-(* (rt eps epsr k n triples) -> (x y u v) | () ;  rt: 0 = AsIs, 1 = Fixed *)
+(* (rt eps epsr k n triples [tinf]) -> (x y u v) | () ;  rt: 0 = AsIs, 1 = Fixed; tinf <> 0: true infinity in augment *)
 Definition entry_lapjv (a : sx) : sx :=
   let rt := if as_Z (arg 0 a) =? 0 then AsIs else Fixed in
-  match lapjv rt (as_Z (arg 1 a)) (as_Z (arg 2 a)) (as_nat (arg 3 a)) (as_nat (arg 4 a)) (as_triples (arg 5 a)) with
+  match (if as_Z (arg 6 a) =? 0 then lapjv else lapjv_ref)
+          rt (as_Z (arg 1 a)) (as_Z (arg 2 a)) (as_nat (arg 3 a)) (as_nat (arg 4 a)) (as_triples (arg 5 a)) with
   | None => L []
   | Some (x, y, u, v) => L [of_nats x; of_nats y; L (map of_ext u); L (map of_ext v)]
   end.
